@@ -619,6 +619,8 @@ type c13mReq struct {
 	sentAt  time.Time
 	probe   bool
 	stress  bool
+	ctx     *c13mCtx // the reload that was in flight when the request was sent, and where it was held
+	phase   string
 }
 
 func (e *c13mEnv) wrapper(k c13mKind) *pb.C2SWrapper {
